@@ -144,8 +144,8 @@ Definition control_size (pp : params) (tok : option token) (c : control) : Z :=
             | TokenMsg _ =>
               (* a token request (header token NONE) is padded to TOKEN_REQUEST_PACKET_SIZE = 519 bytes *)
               match tok with
-              | Some [255; 255; 255; 255] => 519 - 7 - 1
-              | _ => 4
+              | Some t => if list_eq_dec Z.eq_dec t TOKEN_NONE then 519 - 7 - 1 else 4
+              | None => 4
               end
             | Close r => Z.of_nat (length r) + 1
             | _ => 0
